@@ -736,11 +736,25 @@ func runCase(e *hx.Env, sh *pk.Shipper, ns tree.NodeStore, c *Case) {
 				e.Rep.Violate("SendPatches/"+c.Kind+"/collisions", "collision handler calls (SendPatches) differ: "+firstDiff(plog, wl), one)
 				continue
 			}
+			// canonical shape: root hash of the merged map = hash of a bulk build of its content.
+			// At this point the CONTENT and the collision calls are already known to be right, so a
+			// mismatch here is exactly the shape "equal contents, different root hash" of the known
+			// finding MergeMaps/canonical-shape (range patch for right's last leaf, design/C14.md);
+			// it is reported as a known witness (bin/check prints KNOWN-FINDING only while the key is
+			// listed in known_findings.json, otherwise it is a violation).  The generator never makes
+			// pairs larger than ~20 bytes, so C12's giant-item shape (one pair > ~48 KiB ending a node
+			// by capacity) cannot occur here.
 			gotC, _ := pk.Materialise(ctx, out.m)
-			if bulk, err := pk.Build(ctx, ns, gotC); err != nil || bulk.HashOf() != out.m.HashOf() {
-				// stable key (no pair kind): one genuine defect class, see design/C14.md
-				e.Rep.Violate("MergeMaps/canonical-shape", fmt.Sprintf("root hash of the merged map %s != hash of a bulk build of its content (the merged tree is not the canonical tree of its contents)", out.m.HashOf()), one)
+			if bulk, err := pk.Build(ctx, ns, gotC); err != nil {
+				e.Rep.Violate(key+"/bulk-build-error", fmt.Sprint(err), one)
 				continue
+			} else if bulk.HashOf() != out.m.HashOf() {
+				swapped := "swapped merge not computed"
+				if sm, _, err := prolly.MergeMaps(ctx, r.Map, l.Map, b.Map, collideFn("C", new([]string))); err == nil {
+					swapped = fmt.Sprintf("MergeMaps(right,left,base) root hash %s", sm.HashOf())
+				}
+				e.Rep.Hit("known:canonical-shape")
+				e.Rep.Known("MergeMaps/canonical-shape", fmt.Sprintf("equal contents, different root hash: merged map %s != bulk build of its content %s (%s)", out.m.HashOf(), bulk.HashOf(), swapped), one)
 			}
 			if op.Mode == "C" || op.Mode == "L" {
 				// the two paths agree on every key and value; the key BYTES of a key that a side
